@@ -33,7 +33,9 @@ RULE = ("continuous/gp/multi-objective: every function x dimensions 0..30 as it 
         "exhaustive bit strings up to 9 bits quick / 12 bits thorough + random 13..80-bit strings (royal-road block "
         "widths up to 100 bits); bin2float: bit widths 1..64 x ranges; decorators: recording wrapped function, dyadic vectors, "
         "permutation / signed / exact-angle / QR rotation matrices, power-of-two and general scale factors; moving "
-        "peaks: the three standard scenarios, fixed and fluctuating peak numbers, recorded tape, 50 changes; counted "
+        "peaks: evaluation over the whole configuration space (heights / widths of either sign, zero widths, basis below, "
+        "between or above the peaks, points on / next to peak centres); the three standard scenarios and inverted / "
+        "around-zero variants, fixed and fluctuating peak numbers, recorded tape, 50 changes; counted "
         "evaluations (nevals, change exactly when period > 0 and nevals % period == 0) with periods -3..10. "
         "Non-trivial = distinct case that is not a rejected (error) input")
 EXHAUSTIVE = {"quick": False, "thorough": False}
@@ -794,7 +796,8 @@ def mp_build(d, rnd):
     elif d["scenario"] == 3:
         sc["bfunc"] = lambda x: 10
     sc["period"] = d.get("period", 0)
-    for k in ("lambda_", "move_severity"):
+    for k in ("lambda_", "move_severity", "min_height", "max_height", "uniform_height", "min_width", "max_width",
+              "uniform_width", "height_severity", "width_severity", "min_coord", "max_coord"):
         if k in d:
             sc[k] = d[k]
     return movingpeaks.MovingPeaks(dim=d["dim"], random=rnd, **sc), sc
@@ -1346,15 +1349,30 @@ def gen_dec(rng, nrand):
 
 def gen_mp(rng, nrun, changes):
     # evaluation alone: max over separately given peaks
-    for _ in range(nrun * 10):
+    # The parameter space is the whole configuration space, not only the three scenarios: heights and widths of
+    # either sign (inverted landscapes: a function1 peak of negative height, a cone of negative width exceed their
+    # "height"), zero widths, a basis value below / between / above the peaks.  The modes cycle with the index,
+    # the seed only draws the numbers.
+    hmodes = [(30, 70), (30, 70), (-70, -30), (-70, 70), (-1, 1), (-70, -30)]
+    wmodes = [(0.1, 12), (0.0001, 0.2), (-12, -0.1), (-1, 1), (0.1, 12)]
+    for i in range(nrun * 40):
         dim = rng.randint(1, 5)
-        npk = rng.choice([0, 1, 1, 2, 3, 5, 10])
-        peaks = [[rng.choice("csf"), [rng.uniform(0, 100) for _ in range(dim)], rng.uniform(30, 70), rng.uniform(0.1, 12)]
-                 for _ in range(npk)]
+        npk = (0, 1, 2, 2, 3, 5, 5, 10)[i % 8]
+        hlo, hhi = hmodes[i % len(hmodes)]
+        wlo, whi = wmodes[(i // len(hmodes)) % len(wmodes)]
+        fset = ("csf", "f", "c", "cf", "s", "csf")[(i // 3) % 6]
+        peaks = [[rng.choice(fset), [rng.uniform(0, 100) for _ in range(dim)], rng.uniform(hlo, hhi),
+                  0.0 if rng.random() < 0.05 else rng.uniform(wlo, whi)] for _ in range(npk)]
         if npk >= 2 and rng.random() < 0.3:
             peaks[1] = list(peaks[0])                 # tie between two peaks
-        basis = rng.choice([None, None, 10.0, 1000.0, -5.0])
-        x = [rng.uniform(0, 100) for _ in range(dim)] if rng.random() < 0.8 or not npk else list(peaks[0][1])
+        basis = rng.choice([None, None, 10.0, 1000.0, -5.0, rng.uniform(hlo, hhi), rng.uniform(-1, 1)])
+        r = rng.random()
+        if r < 0.6 or not npk:
+            x = [rng.uniform(0, 100) for _ in range(dim)]
+        elif r < 0.8:
+            x = list(rng.choice(peaks)[1])            # exactly on a peak centre
+        else:
+            x = [c + rng.uniform(-1, 1) for c in rng.choice(peaks)[1]]      # next to a peak centre
         yield {"k": "mpcall", "x": x, "peaks": peaks, "basis": basis}
     for i in range(nrun):
         for sc in (1, 2, 3):
@@ -1381,6 +1399,13 @@ def gen_mp(rng, nrun, changes):
                 d["move_severity"] = rng.choice([0.0, 30.0, 150.0])    # zero shift / reflections at the borders
             if rng.random() < 0.2:
                 d["lambda_"] = rng.choice([0.0, 1.0, 0.5])
+            # configuration variants outside the published scenarios (cycling with the run index)
+            variant = (i + 2 * sc) % 5
+            if variant == 3:          # inverted landscape: negative random heights
+                d.update(min_height=-70.0, max_height=-30.0, uniform_height=0, uniform_width=0)
+            elif variant == 4:        # heights around zero, widths of either sign
+                d.update(min_height=-5.0, max_height=5.0, uniform_height=0, min_width=-2.0, max_width=2.0,
+                         uniform_width=0, height_severity=2.0, width_severity=0.5)
             yield d
             e0 = dict(d, k="mpinit"); e0.pop("changes")
             yield e0
